@@ -229,6 +229,8 @@ pub struct Snap {
 	pub pursued: Vec<String>,
 	/// the subset of `pursued` whose output is already spent by a transaction on the chain O was told
 	pub pursued_spent: Vec<String>,
+	/// the last thing O was told was a disconnection (no block connected since)
+	pub after_disconnect: bool,
 	pub peers: Vec<String>,
 	/// payment hashes whose preimage this replica was shown in some delivered transaction, and channels for
 	/// which it was shown a funding spend: knowledge that does not come from the current best chain alone
@@ -285,6 +287,12 @@ pub fn compare(a: &Snap, b: &Snap) -> Result<&'static str, (String, String)> {
 }
 
 fn cmp_pursued(a: &Snap, b: &Snap) -> Result<(), (String, String)> {
+	// The library re-derives time-driven claims (e.g. the broadcast of its commitment for an expired HTLC) when a
+	// block is connected; right after a bare disconnection the claim set is in flux (a claim registered at a now
+	// disconnected height is dropped and re-created with the next block), so it is compared after the next block.
+	if a.after_disconnect || b.after_disconnect {
+		return Ok(());
+	}
 	if a.pursued != b.pursued {
 		let sa: BTreeSet<&String> = a.pursued.iter().collect();
 		let sb: BTreeSet<&String> = b.pursued.iter().collect();
@@ -701,6 +709,7 @@ pub struct Runner {
 	know_preimages: BTreeSet<String>,
 	was_buried: HashSet<Txid>,
 	buried_removed: bool,
+	last_was_disconnect: bool,
 	bcast_cur: usize,
 	all_hashes: HashSet<[u8; 32]>,
 	expiries: Vec<u32>,
@@ -771,6 +780,7 @@ impl Runner {
 			know_preimages: BTreeSet::new(),
 			was_buried: HashSet::new(),
 			buried_removed: false,
+			last_was_disconnect: false,
 			bcast_cur: 0,
 			all_hashes,
 			expiries,
@@ -1362,6 +1372,7 @@ impl Runner {
 			TEv::Connect(b) => {
 				self.say(format!("#{} CONNECT {} height {} txs {:?}", idx, short_hash(&b.block_hash()), self.base_len + self.gchain.len(), b.txdata.iter().map(|t| t.compute_txid().to_string()[..8].to_string()).collect::<Vec<_>>()));
 				self.gchain.push(b.clone());
+				self.last_was_disconnect = false;
 				for i in 0..n {
 					if i != self.o {
 						self.sim.deliver_block(i, b);
@@ -1369,6 +1380,7 @@ impl Runner {
 				}
 			},
 			TEv::Disconnect(d) => {
+				self.last_was_disconnect = true;
 				self.say(format!("#{} DISCONNECT {}", idx, d));
 				let l = self.gchain.len() - *d as usize;
 				self.gchain.truncate(l);
@@ -1544,6 +1556,7 @@ impl Runner {
 		s.spendable = self.obs.spendable.clone();
 		s.spendable.sort();
 		s.pursued = pursued;
+		s.after_disconnect = self.last_was_disconnect;
 		s.pursued_spent = pursued_spent;
 		let mut peers = self.obs.peers_closed.clone();
 		for i in 0..self.sim.w.n {
